@@ -180,6 +180,9 @@ Proof. reflexivity. Qed.
 Example spec_rejects_a_move :
   check_step KMap seen2 (ORemKey 2) (mkObs [mkNode 0 (0, 2)%nat 1 10] []) [EDestroy 1 (0, 2)%nat] = false.
 Proof. reflexivity. Qed.
+Example spec_rejects_a_wrong_removal :      (* remove(position 0) took the element at position 1 *)
+  check_step KMap seen2 (ORemAt 0) (mkObs [mkNode 0 (0, 3)%nat 1 10] []) [EDestroy 1 (0, 2)%nat] = false.
+Proof. reflexivity. Qed.
 Example spec_rejects_a_payload_swap :
   check_step KMap seen2 (ORemKey 5) (mkObs [mkNode 0 (0, 3)%nat 1 20; mkNode 1 (0, 2)%nat 2 10] []) [] = false.
 Proof. reflexivity. Qed.
